@@ -208,6 +208,23 @@ def emit_file(cases, obs):
     return text, ids, unrep
 
 
+def impl_many(payloads, configs, timeout):
+    """vlib.run_impl_many, robust against a concurrent check pruning the shared
+    build cache (vlib keeps the three most recent builds): keep ours recent and
+    retry after a rebuild when a module file vanished mid-run"""
+    import os, time
+    for attempt in range(4):
+        try:
+            impl = vlib.build_impl()
+            for d in impl.values():
+                os.utime(os.path.dirname(d))
+            return vlib.run_impl_many(RUNNER, payloads, configs, timeout=timeout)
+        except vlib.InfraError as e:
+            if attempt == 3 or not any(k in str(e) for k in ("No module named", "No such file", "ImportError", "cannot import")):
+                raise
+            time.sleep(3)
+
+
 # ---- running ----------------------------------------------------------------------
 
 def run_cases(ctx, cases, seeds, tag):
@@ -216,7 +233,7 @@ def run_cases(ctx, cases, seeds, tag):
     size = (len(cases) + nchunk - 1) // nchunk
     parts = list(vlib.chunks(cases, size))
     configs = [("compiled", k) for k in seeds] + [("pure", seeds[-1])]
-    res = vlib.run_impl_many(RUNNER, [{"cases": p} for p in parts], configs, timeout=3000)
+    res = impl_many([{"cases": p} for p in parts], configs, 3000)
     obs0, refs, fails, diffs = [], [], [], []
     base = 0
     for pi, p in enumerate(parts):
